@@ -99,14 +99,14 @@ CLAIMS = {
          "(2) Every validator of package input (meta, params, services incl. creation-method rules, getters, calls, fields, duplicate tags, decorators, Validator.Validate) returns nil exactly when the documented conjunction holds; "
          "todo services are checked for their name only; the loop over the nine service validators is proved to run each of them."),
    note=("Not covered: diagnostics text and the exact number of reported errors (message texts and counts are opaque), the YAML parser in front of the UnmarshalYAML methods, and the wiring of validators into NewDefaultValidator. "
-         "types.IsPrimitive (reflect) has a trusted contract; reservedGetters (reflect, A10) is an assumed global invariant. Known finding: duplicate getters and the getter 'Container' are accepted. " + TB),
+         "types.IsPrimitive (reflect) has a trusted contract; reservedGetters (reflect, A10) is an assumed global invariant. Duplicate getters and the getter 'Container' used to be accepted (genuine defect D3, repaired by fix commit cee442c; now proved rejected). " + TB),
    design="DESIGN.md section 4 C11"),
  "C13": dict(
-   technique="contract-based deductive verification: truth-table contract on getter(), defaults of StepCompileMeta, collision lemma over ValidateServiceGetter's contract, SMT",
+   technique="contract-based deductive verification: truth-table contract on getter(), defaults of StepCompileMeta, getter-uniqueness postcondition on ValidateServices (loop invariants over the sorted keys), collision lemmas over ValidateServiceGetter's and ValidateServices' contracts, SMT",
    text=("Proof that StepCompileServices.getter implements the property's truth table (getter as configured or empty; must-getter iff getter set and must_getter true or unset with default_must_getter true; explicit must_getter without getter is an error), "
          "that package/type/constructor names are the configured ones or main/Gontainer/NewGontainer, that ValidateServiceGetter accepts exactly non-reserved Go identifiers without Must prefix / InContext suffix, "
-         "and a lemma that the four method names generated for accepted getters cannot collide with the runtime API or across services via the Must/InContext affixes."),
-   note=("Build-time half only: that body-container-getters.go.tpl emits exactly those methods with those signatures is template text (outside the technique). Known findings (genuine defects, recorded not repaired): equal getters on two services and the getter 'Container' are accepted. " + TB),
+         "that ValidateServices accepts only configurations in which no two services that get getter methods share a getter (and never the name of the embedded Container field), and lemmas that the four method names generated for accepted getters cannot collide with the runtime API, with the embedded field or across services, also not via the Must/InContext affixes."),
+   note=("Build-time half only: that body-container-getters.go.tpl emits exactly those methods with those signatures is template text (outside the technique). Equal getters on two services and the getter 'Container' were accepted before fix commit cee442c (genuine defect D3, repaired; recorded as fixed in known_findings.json). " + TB),
    design="DESIGN.md section 4 C13"),
  "C18": dict(
    technique="contract-based deductive verification: VCs over go/ssa of the real version gate against assumed axioms of x/mod/semver, SMT",
